@@ -61,6 +61,16 @@ uint64_t bits(double v) { uint64_t u; memcpy(&u, &v, 8); return u; }
 bool same_bits(double a, double b) { return bits(a) == bits(b) || (std::isnan(a) && std::isnan(b)); }
 
 // ---------------------------------------------------------------- CHOLMOD helpers
+// shuffles the entries within every column of a sparse matrix and marks it unsorted (a legal CHOLMOD matrix)
+void shuffle_columns(cholmod_sparse *S, uint64_t seed) {
+	Rng r(seed, "column_order");
+	long *p = (long *)S->p, *i = (long *)S->i; double *x = (double *)S->x;
+	for (size_t col = 0; col < S->ncol; col++) {
+		long a = p[col], b = p[col + 1];
+		for (long k = b - a; k > 1; k--) { long j = (long)r.below((uint64_t)k); std::swap(i[a + k - 1], i[a + j]); std::swap(x[a + k - 1], x[a + j]); }
+	}
+	S->sorted = 0;
+}
 cholmod_sparse *dense_to_sparse_full(const std::vector<double> &A, int n, cholmod_common *c, bool keep_zeros = false) {
 	size_t nz = 0;
 	for (double v : A) if (v != 0 || keep_zeros) nz++;
@@ -986,6 +996,7 @@ struct SchedHarness : Harness {
 			}
 			prob["n"] = Json(n);
 			prob["kind"] = Json(kind);
+			{ Rng st(runseed, "storage"); if (st.chance(0.2)) prob["storage"] = Json("unsorted"); }
 			if (depth == "plain") {
 				static const char *sv[] = {"block", "updown", "lh_normal", "lh_ls"};
 				std::string s = sv[gen.below(4)];
@@ -996,6 +1007,7 @@ struct SchedHarness : Harness {
 				prob["lh_tol"] = Json(tols[gen.below(3)]);
 				// 0 = "no iteration limit" in the solver's interface
 				prob["lh_maxiter"] = Json(gen.chance(0.5) ? 0 : 50 * n + 50);
+				{ Rng un(runseed, "units"); static const int ue[] = {-9, -6, -3, 3, 6}; if (un.chance(0.25)) prob["unit_exp"] = Json(ue[un.below(5)]); }
 			} else prob["solver"] = Json("block3");
 			est_len = 100;
 		} else {
@@ -1209,6 +1221,19 @@ struct SchedHarness : Harness {
 		cholmod_sparse *A = nullptr; cholmod_dense *b = nullptr, *xr = nullptr;
 		if (solver == "lh_ls") { A = rect_to_sparse(p.M, p.m, p.n, &c); b = vec_to_dense(p.y, &c); }
 		else { A = dense_to_sparse_full(p.A, p.n, &c); b = vec_to_dense(p.b, &c); }
+		// Units of the data (Lawson-Hanson with tolerance 0 only: its answer does not depend on them, the other
+		// solvers state absolute tolerances). The solver gets the system in units of 10^u; the oracle judges the
+		// returned vector on the system as generated, whose minimiser is the same.
+		int unit_exp = (int)prob.geti("unit_exp", 0);
+		if (unit_exp && (solver == "lh_normal" || solver == "lh_ls") && prob.getd("lh_tol", 0) == 0) {
+			double sc1 = std::pow(10.0, (double)unit_exp), f = solver == "lh_ls" ? sc1 : sc1 * sc1;
+			for (size_t k = 0; k < A->nzmax; k++) ((double *)A->x)[k] *= f;
+			for (size_t k = 0; k < b->nzmax; k++) ((double *)b->x)[k] *= f;
+			ctx.count("probe:system_in_other_units");
+		}
+		// Row indices within a column need not be ascending in a CHOLMOD matrix (sorted = 0; cholmod_add(.., sorted=0),
+		// which the fitter itself uses, returns such matrices): the same system, stored with its columns shuffled
+		if (prob.gets("storage", "sorted") == "unsorted") { shuffle_columns(A, (uint64_t)strtoull(prob.gets("pseed", "1").c_str(), nullptr, 16)); ctx.count("probe:matrix_with_unsorted_columns"); }
 		ctx.crumb("nnls|%s|n=%d", solver.c_str(), p.n);
 		G.qr_cap = 2000 + 400LL * p.n;
 		SchedOutcome o = Sched::run(sc, &ctx, [&]() {
@@ -1248,6 +1273,7 @@ struct SchedHarness : Harness {
 			// a fresh cholmod_common: modify_factor steers by the flop counts the previous solve left behind
 			cholmod_common c2; cholmod_l_start(&c2);
 			cholmod_sparse *A2 = dense_to_sparse_full(p.A, p.n, &c2); cholmod_dense *b2 = vec_to_dense(p.b, &c2), *x2 = nullptr;
+			if (prob.gets("storage", "sorted") == "unsorted") shuffle_columns(A2, (uint64_t)strtoull(prob.gets("pseed", "1").c_str(), nullptr, 16));
 			G.canonical_only = true;
 			SchedConfig s2; s2.policy = "oldest";
 			SchedOutcome o2 = Sched::run(s2, nullptr, [&]() { x2 = nnls_normal_block3(A2, b2, 0, &c2); });
@@ -1495,6 +1521,8 @@ struct SchedHarness : Harness {
 		if (plan["problem"].has("n") && plan["problem"].geti("n") > 1) { Json c = plan; c["problem"]["n"] = Json(plan["problem"].geti("n") - 1); out.push_back(c); }
 		if (plan["problem"].geti("extra") > 0) { Json c = plan; c["problem"]["extra"] = Json(0); out.push_back(c); }
 		if (plan.getb("affinity_fails")) { Json c = plan; c["affinity_fails"] = Json(false); out.push_back(c); }
+		if (plan["problem"].has("storage")) { Json c = plan; c["problem"].erase("storage"); out.push_back(c); }
+		if (plan["problem"].has("unit_exp")) { Json c = plan; c["problem"].erase("unit_exp"); out.push_back(c); }
 		if (plan.gets("cholmod", "simplicial") != "simplicial") { Json c = plan; c["cholmod"] = Json("simplicial"); out.push_back(c); }
 		if (plan.has("env") && (plan["env"].gets("form", "both") != "both" || plan["env"].geti("style", 0))) { Json c = plan; c.erase("env"); out.push_back(c); }
 		if (plan.geti("ncpus", 0) > 0 && plan["env"].gets("form", "both") != "neither") { Json c = plan; c["ncpus"] = Json(0); out.push_back(c); }
